@@ -109,4 +109,88 @@ theorem complete_schedule_is_enumerated_noclose (T : Table) (hT : VaxisModel.Lem
   exact ⟨ls', _, h2, h1, h3, fun fuel cap hl hc =>
     VaxisModel.Props.C08Sched.enumerate_complete T fuel (runes ls') false cap _ h4 hl hc⟩
 
+/-- The normal form of `grouped_normal_form_general` is `normalForm T f0 ls`, and it keeps the script:
+    the runes the read returns, in order. -/
+theorem normal_form_explicit (T : Table) (hT : VaxisModel.Lemmas.ParserRunFine.TimerOk T) (f0 : FSys)
+    (hinv : VaxisModel.Lemmas.ParserRunFine.FInv f0) (ha : f0.armed = none)
+    (ls : List FLabel) (r : FSys × List Seq) (h : FSys.run T f0 ls = some r)
+    (hend1 : ∀ i, r.1.mpc ≠ .readDone i) (hend2 : ∀ c ∈ r.1.cbs, c.2 ≠ .failed ∧ c.2 ≠ .stSet) :
+    FSys.run T f0 (normalForm T f0 ls) = some r ∧ (normalForm T f0 ls).Perm ls ∧
+      expNormal T false f0 (normalForm T f0 ls) = true ∧ closeNormal T f0 (normalForm T f0 ls) = true ∧
+      readAdj (normalForm T f0 ls) = true ∧ cbAdj T f0 (normalForm T f0 ls) = true ∧
+      runes (normalForm T f0 ls) = runes ls := by
+  have e1 : FSys.run T f0 (expNorm T ls.length f0 ls) = some r := by rw [expNorm_run]; exact h
+  have e2 : FSys.run T f0 (closeNorm T 0 f0 (expNorm T ls.length f0 ls)) = some r := by
+    rw [closeNorm_run]; simpa [cs] using e1
+  have e3 : FSys.run T f0 (readNorm T none f0 (closeNorm T 0 f0 (expNorm T ls.length f0 ls))) = some r := by
+    rw [readNorm_run]; simpa [pend] using e2
+  have e4 : FSys.run T f0 (normalForm T f0 ls) = some r := by
+    unfold normalForm
+    rw [cbNorm_run T hT _ none f0 hinv (fun _ h => by cases h)]; simpa [pendc] using e3
+  have x1 := expNorm_normal T hT ls.length f0 ls false (Nat.le_refl _) hinv (fun g hg => by rw [ha] at hg; cases hg)
+  have x2 := closeNorm_expNormal T (expNorm T ls.length f0 ls) 0 f0 false (by rw [if_pos rfl]; exact x1)
+  have x3 := readNorm_expNormal T _ none f0 false (by simp only [pend, List.nil_append]; rw [e2]; rfl)
+    (by simpa [pend] using x2)
+  have x4 := cbNorm_expNormal T hT _ none f0 false hinv (fun _ h => by cases h)
+    (by simp only [pendc, List.nil_append]; rw [e3]; rfl) (by simpa [pendc] using x3)
+  have c2 := closeNorm_normal T (expNorm T ls.length f0 ls) 0 f0
+  have c3 := readNorm_closeNormal T _ none f0 ⟨r, by simpa [pend] using e2, hend1⟩ (by simpa [pend] using c2)
+  have c4 := cbNorm_closeNormal T hT _ none f0 hinv (fun _ h => by cases h) ⟨r, by simpa [pendc] using e3, hend2⟩
+    (by simpa [pendc] using c3)
+  have r3 := readNorm_adj T (closeNorm T 0 f0 (expNorm T ls.length f0 ls)) none f0 ⟨r, by simpa [pend] using e2, hend1⟩
+  have r4 := (cbNorm_readAdj T hT noHalf _ none f0 hinv (fun _ h => by cases h) ⟨r, by simpa [pendc] using e3, hend2⟩ r3).1
+  have b4 := cbNorm_adj T hT _ none f0 hinv (fun _ h => by cases h) ⟨r, by simpa [pendc] using e3, hend2⟩
+  refine ⟨e4, ?_, x4, c4, r4, b4, normalForm_runes T f0 ls r h⟩
+  exact (cbNorm_perm T _ none f0).trans ((readNorm_perm T _ none f0).trans
+    ((by simpa [cs] using closeNorm_perm T (expNorm T ls.length f0 ls) 0 f0 :
+      (closeNorm T 0 f0 (expNorm T ls.length f0 ls)).Perm (expNorm T ls.length f0 ls)).trans (expNorm_perm T _ f0 ls)))
+
+/-- **`complete_schedule_is_reduced`, for schedules without `Close()`** — with the script of the ORIGINAL
+    schedule: `TimerOk` table, from the initial state, a complete schedule `ls` of single statements
+    without `closeSig` (result `r`, `finished r.1`): `s = toS T false FSys.init (normalForm T FSys.init ls)` satisfies
+    `srun T FSys.init s = some r` and `Reduced T FSys.init (runes ls) false s`, `runes ls` = the runes the read returns
+    along `ls`, in order (an `eof` read, if any, is the last read: after it the main goroutine never reads
+    again); hence, under the fuel and cap hypotheses of `enumerate_complete`,
+    `s ∈ enumerate T fuel FSys.init (runes ls) false [] cap []`. -/
+theorem complete_schedule_is_reduced (T : Table) (hT : VaxisModel.Lemmas.ParserRunFine.TimerOk T)
+    (ls : List FLabel) (r : FSys × List Seq) (h : FSys.run T FSys.init ls = some r)
+    (hfin : VaxisModel.Model.ParserRunSched.finished r.1 = true) (hnc : ∀ l ∈ ls, l ≠ .closeSig) :
+    (normalForm T FSys.init ls).Perm ls ∧ FSys.run T FSys.init (normalForm T FSys.init ls) = some r ∧
+    VaxisModel.Model.ParserRunSched.srun T FSys.init (toS T false FSys.init (normalForm T FSys.init ls)) = some r ∧
+    VaxisModel.Props.C08Sched.Reduced T FSys.init (runes ls) false (toS T false FSys.init (normalForm T FSys.init ls)) ∧
+    ∀ fuel cap, (toS T false FSys.init (normalForm T FSys.init ls)).length < fuel →
+      (VaxisModel.Model.ParserRunSched.enumerate T fuel FSys.init (runes ls) false [] cap []).length < cap →
+      toS T false FSys.init (normalForm T FSys.init ls) ∈ VaxisModel.Model.ParserRunSched.enumerate T fuel FSys.init (runes ls) false [] cap [] := by
+  have hf := hfin
+  simp only [VaxisModel.Model.ParserRunSched.finished, Bool.and_eq_true, decide_eq_true_eq, List.all_eq_true] at hf
+  obtain ⟨⟨hd, hg⟩, _⟩ := hf
+  obtain ⟨h1, h2, h3, _, h5, h6, h7⟩ := normal_form_explicit T hT FSys.init
+    VaxisModel.Lemmas.ParserRunFine.FInv_init rfl ls r h
+    (fun i hi => by rw [hd] at hi; cases hi)
+    (fun c hc => by have := hg c hc; rw [this]; exact ⟨by decide, by decide⟩)
+  have hred := reduced_core T (normalForm T FSys.init ls) FSys.init false r h1 hfin (fun l hl => hnc l (h2.subset hl)) h5 h6 h3
+    (fun h => by cases h) (fun i h => by cases h)
+  rw [h7] at hred
+  refine ⟨h2, h1, ?_, hred, fun fuel cap hl hc =>
+    VaxisModel.Props.C08Sched.enumerate_complete T fuel (runes ls) false cap _ hred hl hc⟩
+  rw [toS_run T _ FSys.init (by rw [h1]; rfl) h5 h6 (fun i h => by cases h)]; exact h1
+
+-- non-vacuity: ESC A with a lone-ESC callback raced against the main goroutine, every goroutine run to its end
+-- (19 single statements, not grouped: the deferred Unlock of the callback comes two statements after its failed
+-- check; the timer expiry comes late): complete, no Close(); its normal form's harness schedule has 16 labels.
+example :
+    (FSys.run handTable FSys.init [.main, .readRet (.rune 0x1B), .main, .main, .main, .main, .main, .main, .expire,
+      .readRet (.rune 0x41), .main, .main, .main, .main, .main, .cb 0, .cb 0, .main, .cb 0, .readRet .eof,
+      .main, .main, .main, .main, .main, .main, .main, .main, .main, .main, .main]).map
+        (fun r => VaxisModel.Model.ParserRunSched.finished r.1) = some true ∧
+    toS handTable false FSys.init (normalForm handTable FSys.init [.main, .readRet (.rune 0x1B), .main, .main, .main, .main, .main, .main,
+      .expire, .readRet (.rune 0x41), .main, .main, .main, .main, .main, .cb 0, .cb 0, .main, .cb 0, .readRet .eof,
+      .main, .main, .main, .main, .main, .main, .main, .main, .main, .main, .main]) =
+      [.main, .read (.rune 0x1B), .main, .main, .main, .expire, .main, .main, .read (.rune 0x41), .main, .main, .main,
+       .main, .cb 0, .main, .cb 0, .read .eof, .main, .main, .main, .main, .main, .main, .main, .main, .main, .main] ∧
+    runes [.main, .readRet (.rune 0x1B), .main, .main, .main, .main, .main, .main,
+      .expire, .readRet (.rune 0x41), .main, .main, .main, .main, .main, .cb 0, .cb 0, .main, .cb 0, .readRet .eof,
+      .main, .main, .main, .main, .main, .main, .main, .main, .main, .main, .main] = [0x1B, 0x41] := by
+  refine ⟨?_, ?_, ?_⟩ <;> decide +kernel
+
 end VaxisModel.Props.C08SchedEnum
